@@ -114,19 +114,23 @@ Section Dump.
     | DDone => tables = O /\ out w = [] \/ exists v, out w = repeat v tables /\ k0 <= v <= k w
     end.
 
-  Lemma dinv_step s : dinv s -> dinv (dump_step true tables s).
+  Lemma dinv_step s : dinv s -> dinv (dump_step tables tables s).
   Proof.
     destruct s as [w ph]. destruct ph as [|j|]; cbn [dinv dump_step].
-    - intros (H1 & Hs & Ho). sw. repeat split; try assumption; try lia.
-      left. repeat split; assumption.
+    - intros (H1 & Hs & Ho). destruct (0 <? tables)%nat eqn:E0.
+      + sw. repeat split; try assumption; try lia. left. repeat split; assumption.
+      + apply Nat.ltb_ge in E0. assert (tables = O) by lia. sw. repeat split; try assumption; try lia.
+        right. exists (k w). subst tables. rewrite Hs, Ho. cbn. repeat split; try lia. discriminate.
     - destruct j as [|j]; intros (H1 & Hj & [(Hs & Ho & E) | (v & Hs & Ho & Hv)]).
       + sw. split; [assumption|]. left. split; [symmetry; exact E | exact Ho].
       + sw. split; [assumption|]. right. exists v.
         rewrite Nat.sub_0_r in Ho. split; assumption.
-      + unfold read_version. rewrite Hs. sw. repeat split; try assumption; try lia.
+      + replace (tables - S j <? tables)%nat with true by (symmetry; apply Nat.ltb_lt; lia).
+        unfold read_version. rewrite Hs. sw. repeat split; try assumption; try lia.
         right. exists (k w). rewrite Ho. split; [reflexivity|]. split; [|lia].
         subst tables. replace (S j - j)%nat with 1%nat by lia. reflexivity.
-      + unfold read_version. rewrite Hs. sw. repeat split; try assumption; try lia.
+      + replace (tables - S j <? tables)%nat with true by (symmetry; apply Nat.ltb_lt; lia).
+        unfold read_version. rewrite Hs. sw. repeat split; try assumption; try lia.
         right. exists v. split; [assumption|]. split; [|assumption].
         rewrite Ho, repeat_snoc. f_equal. lia.
     - intros H. exact H.
@@ -149,7 +153,7 @@ Section Dump.
      (hypothesis of the model: a SQLite read transaction keeps the snapshot of its first read) *)
   Theorem dump_is_version sched w0 w :
     k w0 = k0 -> snap w0 = None -> out w0 = [] -> tables <> O ->
-    run (dump_step true tables) sched (w0, DBegin) = (w, DDone) ->
+    run (dump_step tables tables) sched (w0, DBegin) = (w, DDone) ->
     point_in_time k0 w tables.
   Proof.
     intros Hk Hs Ho Ht Hrun.
@@ -163,7 +167,7 @@ End Dump.
 (* the dump as it was before the fix (autocommit): a commit between two reads shows in the output *)
 Theorem dump_without_transaction_refuted :
   exists sched w0, k w0 = 0 /\ snap w0 = None /\ out w0 = [] /\
-    let '(w, ph) := run (dump_step false 2) sched (w0, DBegin) in
+    let '(w, ph) := run (dump_step 0 2) sched (w0, DBegin) in
     ph = DDone /\ ~ point_in_time 0 w 2.
 Proof.
   exists [EStep; EStep; ECommit; EStep; EStep], {| k := 0; m := 0; gate := false; snap := None; out := [] |}.
@@ -172,8 +176,19 @@ Qed.
 
 Example dump_ex :
   let w0 := {| k := 4; m := 0; gate := false; snap := None; out := [] |} in
-  out (fst (run (dump_step true 3) [EStep; ECommit; EStep; ECommit; EStep; ECheckpoint; EStep; ECommit; EStep] (w0, DBegin))) = [5; 5; 5].
+  out (fst (run (dump_step 3 3) [EStep; ECommit; EStep; ECommit; EStep; ECheckpoint; EStep; ECommit; EStep] (w0, DBegin))) = [5; 5; 5].
 Proof. vm_compute. reflexivity. Qed.
+
+(* the bracket closed before the last query (the one listing indexes, triggers and views): the tables and rows
+   are one version, the schema objects a later one *)
+Theorem dump_last_query_outside_transaction_refuted :
+  exists sched w0, k w0 = 0 /\ snap w0 = None /\ out w0 = [] /\
+    let '(w, ph) := run (dump_step 2 3) sched (w0, DBegin) in
+    ph = DDone /\ out w = [0; 0; 1] /\ ~ point_in_time 0 w 3.
+Proof.
+  exists [EStep; EStep; EStep; ECommit; EStep; EStep], {| k := 0; m := 0; gate := false; snap := None; out := [] |}.
+  repeat split. intros (v & Ho & _). vm_compute in Ho. inversion Ho; subst. discriminate.
+Qed.
 
 (* ================================================================== vacuum / DELETE format *)
 Theorem online_is_version k0 sched w0 w :
@@ -223,14 +238,15 @@ Proof.
 Qed.
 
 (* the other formats never take the gate: a checkpoint attempted while they run is not refused by them *)
-Theorem dump_never_holds_gate in_tx tables sched w0 w ph :
-  gate w0 = false -> run (dump_step in_tx tables) sched (w0, DBegin) = (w, ph) -> checkpoint_refused w = false.
+Theorem dump_never_holds_gate covered queries sched w0 w ph :
+  gate w0 = false -> run (dump_step covered queries) sched (w0, DBegin) = (w, ph) -> checkpoint_refused w = false.
 Proof.
   intros Hg Hrun. set (I := fun s : world * dphase => gate (fst s) = false).
   assert (X : I (w, ph)).
   { rewrite <- Hrun. apply run_inv.
     - intros [w1 p]. unfold I. cbn [fst]. destruct p as [|[|i]|]; cbn [dump_step fst]; intros H;
-        destruct in_tx; destruct (snap w1) as [[v|]|]; sw; exact H.
+        try destruct (0 <? covered)%nat; try destruct (queries - S i <? covered)%nat;
+        destruct (snap w1) as [[v|]|]; sw; exact H.
     - intros e [w1 p]. unfold I. cbn [fst snd]. destruct e; cbn [env_step]; intros H; sw; try exact H.
       rewrite H. sw. first [exact H | reflexivity].
     - exact Hg. }
